@@ -615,7 +615,7 @@ pub fn cfm(segments: BoxedStrategy<usize>) -> impl Strategy<Value = CfmSpec> {
             // per segment: a base zone-count pattern, cheap to generate for 360 azimuths
             let seg = (vec(0usize..=25, 4), any::<u64>(), vec(cfm_zone(), 8)).prop_map(|(counts, seed, zones)| {
                 let mut x = seed | 1;
-                let mut azs = Vec::with_capacity(360);
+                let mut azs: Vec<Vec<(u16, u16)>> = Vec::with_capacity(360);
                 for a in 0..360usize {
                     x ^= x << 13;
                     x ^= x >> 7;
@@ -626,7 +626,22 @@ pub fn cfm(segments: BoxedStrategy<usize>) -> impl Strategy<Value = CfmSpec> {
                         let base = zones[(a + i) % zones.len()];
                         z.push((base.0, base.1.wrapping_add((a * 31 + i) as u16)));
                     }
-                    azs.push(z);
+                    // related neighbours: now and then an azimuth repeats the previous one, is a proper prefix of it, or
+                // extends it (decoders that compare or reuse neighbouring zone lists)
+                let rel = (x >> 20) % 24;
+                if a > 0 && rel < 3 {
+                    let prev: Vec<(u16, u16)> = azs[a - 1].clone();
+                    z = match rel {
+                        0 => prev,
+                        1 => prev[..prev.len() / 2 + prev.len() % 2].to_vec(),
+                        _ => {
+                            let mut e = prev;
+                            e.push((2, 511));
+                            e
+                        }
+                    };
+                }
+                azs.push(z);
                 }
                 azs
             });
